@@ -160,7 +160,12 @@ pub async fn trigger<T: Any + Send>(t: T) {
             None
         }
         Reaction::Suspend => Some(tx),
-        Reaction::Panic => panic!("Injected panic from barrier"),
+        Reaction::Panic => {
+            // The barrier observes the trigger like any other before the
+            // triggering code panics.
+            let _ = to_test.send((Box::new(t), None));
+            panic!("Injected panic from barrier")
+        }
     };
 
     let _ = to_test.send((Box::new(t), waker));
@@ -188,6 +193,9 @@ pub fn trigger_noop<T: Any + Send>(t: T) {
     }
 
     if let Reaction::Panic = reaction {
+        // The barrier observes the trigger like any other before the
+        // triggering code panics.
+        let _ = to_test.send((Box::new(t), None));
         panic!("Injected panic from barrier");
     }
 
